@@ -378,3 +378,12 @@ func (s *Session) VerifLoadBlocklist(text string) error {
 	_, err := s.blocklist.Reload(strings.NewReader(text))
 	return err
 }
+
+// VerifWebseedURLs lists the web seed sources the torrent keeps.
+func (t *Torrent) VerifWebseedURLs() []string {
+	var out []string
+	for _, s := range t.torrent.webseedSources {
+		out = append(out, s.URL)
+	}
+	return out
+}
